@@ -1,3 +1,539 @@
--- stub: the driver of C14 is not built yet
+/-
+  Line-protocol driver of C14 (Deduplicator).  `M <req>` → the model's observation, `P <req> ## <obs>` → the property
+  monitor on the implementation's observation.  Request kinds: see harness/cmd/c14/main.go.
+  The monitors are written against the *statement* (per-key bookkeeping over the keys the real key factory gave,
+  pairwise window inequalities on recorded stamps) and do not call the model functions.
+-/
 import WmModel.Basic
-def main : IO Unit := Wm.driverMain (fun _ => "bad-op")
+import WmModel.Dedup
+open Wm Wm.Dedup
+
+/-! ### tokens -/
+
+def tok (s : String) : List String := (s.splitOn " ").filter (· ≠ "")
+
+def dashJoin (sep : String) (xs : List String) : String :=
+  if xs.isEmpty then "-" else sep.intercalate xs
+
+inductive HCfg
+  | adler (l : Int)
+  | sha (l : Int)
+  | metaF (fieldHex : String)
+  | dflt                      -- nil KeyFactory / nil Deduplicator: Adler-32 over the whole payload
+
+def parseHasher (s : String) : Option HCfg :=
+  match s.splitOn ":" with
+  | ["default"] => some .dflt
+  | ["nil"] => some .dflt
+  | ["adler", l] => l.toInt?.map .adler
+  | ["sha", l] => l.toInt?.map .sha
+  | ["meta", f] => if (hexDec f).isSome then some (.metaF f) else none
+  | _ => none
+
+/-- metadata `k=v,k=v` (hex tokens, kept as hex) -/
+def parseMeta (s : String) : Option (List (String × String)) :=
+  if s = "-" then some [] else
+  (s.splitOn ",").mapM fun kv =>
+    match kv.splitOn "=" with
+    | [k, v] => if (hexDec k).isSome && (hexDec v).isSome then some (k, v) else none
+    | _ => none
+
+def be4 (n : Nat) : List UInt8 :=
+  [UInt8.ofNat (n / 16777216 % 256), UInt8.ofNat (n / 65536 % 256), UInt8.ofNat (n / 256 % 256), UInt8.ofNat (n % 256)]
+
+/-- the model's key of a message; SHA-256 is represented by the prefix it digests (injective on prefixes – the stated assumption) -/
+def modelKey (h : HCfg) (payload : List UInt8) (md : List (String × String)) : KeyRes String :=
+  match h with
+  | .adler l => .key ("a:" ++ toString (hasherKey adler32 l payload))
+  | .dflt => .key ("a:" ++ toString (hasherKey adler32 9223372036854775807 payload))
+  | .sha l => .key ("s:" ++ hexEnc (hasherKey id l payload))
+  | .metaF f => match metaKey f md with
+    | .key v => .key ("m:" ++ v)
+    | .err => .err
+
+def bigWindow : Nat := 3600000000000
+
+/-! ### repo -/
+
+def resLetter : Res → Char
+  | .verdict false => 'a'
+  | .verdict true => 'd'
+  | .cleaned => 'c'
+
+def mRepo (keys : List String) : String :=
+  let ops : List (Op String) := keys.zipIdx.map fun (k, i) => .arrive k i
+  let out := (run bigWindow [] ops).2.map resLetter
+  if out.isEmpty then "-" else String.ofList out
+
+/-- statement: of all arrivals of one key within the window exactly the first is accepted -/
+def pRepo (keys : List String) (obs : String) : String := Id.run do
+  let letters := if obs = "-" then [] else obs.toList
+  if letters.length != keys.length then return "violated:length"
+  let mut seen : List String := []
+  for (k, c) in keys.zip letters do
+    if seen.contains k then
+      if c != 'd' then return "violated:one_per_window"
+    else
+      if c != 'a' then return "violated:first_arrival_not_accepted"
+      seen := k :: seen
+  return "ok"
+
+/-! ### mw -/
+
+structure MwStep where
+  payload : List UInt8
+  md : List (String × String)
+  outcome : String
+  realKey : String
+
+def parseMwStep (t : String) : Option MwStep :=
+  match t.splitOn "/" with
+  | [p, m, o, k] => do
+    let p ← hexDec p
+    let m ← parseMeta m
+    if !(["o0", "o1", "o2", "e", "b", "p"].contains o) then none
+    if k ≠ "!" && (hexDec k).isNone then none
+    pure ⟨p, m, o, k⟩
+  | _ => none
+
+def passToken : String → String
+  | "o0" => "pass:0:0/1" | "o1" => "pass:1:0/1" | "o2" => "pass:2:0/1"
+  | "e" => "pass:0:1/1" | "b" => "pass:1:1/1" | _ => "panic/1"
+
+def mMw (h : HCfg) (steps : List MwStep) : String := Id.run do
+  let mut r : Repo String := []
+  let mut out : List String := []
+  let mut now := 0
+  for s in steps do
+    let (r', res, _) := middleware bigWindow r (modelKey h s.payload s.md) now s.outcome
+    r := r'
+    now := now + 1
+    out := (match res with
+      | .keyErr => "kerr/0"
+      | .dropped => "drop/0"
+      | .handled o => passToken o) :: out
+  return dashJoin " " out.reverse
+
+/-- statement: per real key exactly the first message reaches the handler (one invocation); every other one is
+    dropped as a success – `(nil, nil)` – without invoking it -/
+def pMw (steps : List MwStep) (obs : List String) : String := Id.run do
+  if steps.length != obs.length then return "violated:length"
+  let mut seen : List String := []
+  for (s, o) in steps.zip obs do
+    if s.realKey = "!" then continue            -- no key: the statement is silent
+    if seen.contains s.realKey then
+      if o != "drop/0" then return "violated:duplicate_not_dropped_as_success"
+    else
+      seen := s.realKey :: seen
+      if !(o.endsWith "/1") then return "violated:first_message_did_not_reach_handler_once"
+  return "ok"
+
+/-! ### dec -/
+
+structure DecMsg where
+  payload : List UInt8
+  md : List (String × String)
+  realKey : String
+
+structure DecCall where
+  fail : Bool
+  msgs : List DecMsg
+
+def parseDecCall (t : String) : Option DecCall :=
+  match t.splitOn "|" with
+  | [f, ms] => do
+    let fail ← (if f = "f" then some true else if f = "o" then some false else none)
+    let msgs ← (if ms = "" then some [] else (ms.splitOn ";").mapM fun mt =>
+      match mt.splitOn "/" with
+      | [p, m, k] => do
+        let p ← hexDec p
+        let m ← parseMeta m
+        if k ≠ "!" && (hexDec k).isNone then none
+        pure (⟨p, m, k⟩ : DecMsg)
+      | _ => none)
+    pure ⟨fail, msgs⟩
+  | _ => none
+
+def mDec (h : HCfg) (calls : List DecCall) : String := Id.run do
+  let mut r : Repo String := []
+  let mut out : List String := []
+  let mut now := 0
+  for c in calls do
+    let pm : List (PMsg String) := c.msgs.zipIdx.map fun (m, i) => ⟨i, modelKey h m.payload m.md, now + i⟩
+    now := now + c.msgs.length
+    let (r', o) := decorate bigWindow r pm c.fail
+    r := r'
+    let e := match o.err with | .none => "n" | .key => "k" | .inner => "i"
+    let fw := match o.forwarded with
+      | none => "x"
+      | some ids => dashJoin "." (ids.map toString)
+    -- settlement after the call: acked by the decorator, everything else untouched (the recording publisher settles nothing)
+    let flags := (List.range c.msgs.length).map fun i => if o.acked.contains i then 'a' else 'u'
+    let fl := if flags.isEmpty then "-" else String.ofList flags
+    let tp := if o.forwarded.isSome then "t" else "x"
+    out := (e ++ "|" ++ fw ++ "|" ++ fl ++ "|" ++ tp) :: out
+  return dashJoin " " out.reverse
+
+def parseIdxList (s : String) : Option (List Nat) :=
+  if s = "-" then some [] else (s.splitOn ".").mapM (·.toNat?)
+
+/-- statement: per real key exactly one message is handed to the wrapped publisher; every other one is not forwarded
+    and is acked; a message may only be dropped-as-success when one with its key did reach the wrapped publisher -/
+def pDec (calls : List DecCall) (obs : List String) : String := Id.run do
+  if calls.length != obs.length then return "violated:length"
+  let mut reached : List String := []
+  for (c, o) in calls.zip obs do
+    match o.splitOn "|" with
+    | [e, fw, fl, _] =>
+      if fw = "multi" then return "violated:wrapped_publisher_called_twice"
+      let fwd ← match (if fw = "x" then some [] else parseIdxList fw) with
+        | some l => pure l
+        | none => return "bad-op"
+      let flags := if fl = "-" then [] else fl.toList
+      if flags.length != c.msgs.length then return "violated:length"
+      -- forwarded ones first, in the order the wrapped publisher saw them
+      for i in fwd do
+        match c.msgs[i]? with
+        | none => return "violated:forwarded_unknown_message"
+        | some m =>
+          if m.realKey = "!" then continue
+          if reached.contains m.realKey then return "violated:duplicate_forwarded"
+          reached := m.realKey :: reached
+      if e = "k" then continue     -- the call failed before the batch was complete: nothing was dropped *as a success*
+      for (m, i) in c.msgs.zipIdx do
+        if m.realKey = "!" then continue
+        if fwd.contains i then continue
+        if flags[i]? != some 'a' then return "violated:dropped_not_acked"
+        if !(reached.contains m.realKey) then return "violated:dropped_but_none_reached"
+    | _ => return "bad-op"
+  return "ok"
+
+/-! ### mwc / decc -/
+
+def parseAssign (s : String) (batches : Bool) : Option (List (List (List Nat))) :=
+  (s.splitOn ";").mapM fun g =>
+    (if batches then g.splitOn "+" else [g]).mapM fun b => (b.splitOn ".").mapM (·.toNat?)
+
+def nKeys (gs : List (List (List Nat))) : Nat :=
+  gs.foldl (fun m g => g.foldl (fun m b => b.foldl (fun m k => max m (k + 1)) m) m) 0
+
+def countOf (xs : List Nat) (k : Nat) : Nat := (xs.filter (· == k)).length
+
+def mMwc (gs : List (List (List Nat))) : String := Id.run do
+  let arrivals : List Nat := gs.flatten.flatten
+  let mut r : Repo String := []
+  let mut calls : List Nat := []
+  let mut passed : List Nat := []
+  let mut dropped : List Nat := []
+  let mut now := 0
+  for k in arrivals do
+    let (r', res, n) := middleware bigWindow r (.key (toString k)) now ()
+    r := r'
+    now := now + 1
+    if n > 0 then calls := k :: calls
+    match res with
+    | .handled _ => passed := k :: passed
+    | .dropped => dropped := k :: dropped
+    | .keyErr => pure ()
+  let parts := (List.range (nKeys gs)).map fun k =>
+    s!"k{k}={countOf calls k}:{countOf passed k}:{countOf dropped k}:0"
+  return ",".intercalate parts
+
+def parseKeyStats (s : String) : Option (List (List Nat)) :=
+  (s.splitOn ",").mapM fun p =>
+    match p.splitOn "=" with
+    | [_, v] => (v.splitOn ":").mapM (·.toNat?)
+    | _ => none
+
+/-- statement: however concurrently they arrive, exactly one message per key reaches the handler, the others are (nil, nil) -/
+def pMwc (gs : List (List (List Nat))) (obs : String) : String := Id.run do
+  let arrivals := gs.flatten.flatten
+  match parseKeyStats obs with
+  | none => return "bad-op"
+  | some st =>
+    if st.length != nKeys gs then return "violated:length"
+    for (v, k) in st.zipIdx do
+      let n := countOf arrivals k
+      match v with
+      | [calls, passed, dropped, errs] =>
+        if n = 0 then
+          if calls + passed + dropped + errs != 0 then return "violated:phantom"
+        else
+          if calls != 1 then return "violated:concurrent_exactly_one"
+          if errs != 0 then return "violated:error_or_panic"
+          if dropped + 1 != n then return "violated:drop_is_success"
+          if passed != 1 then return "violated:accepted_result_not_passed"
+      | _ => return "bad-op"
+    return "ok"
+
+def mDecc (gs : List (List (List Nat))) : String := Id.run do
+  let mut r : Repo String := []
+  let mut fw : List Nat := []
+  let mut ak : List Nat := []
+  let mut now := 0
+  for g in gs do
+    for b in g do
+      let pm : List (PMsg String) := b.zipIdx.map fun (k, i) => ⟨i, .key (toString k), now + i⟩
+      now := now + b.length
+      let (r', o) := decorate bigWindow r pm false
+      r := r'
+      let keyAt := fun (i : Nat) => b[i]?.getD 0
+      fw := (o.forwarded.getD []).map keyAt ++ fw
+      ak := o.acked.map keyAt ++ ak
+  let parts := (List.range (nKeys gs)).map fun k => s!"k{k}={countOf fw k}:{countOf ak k}:0:0"
+  return ",".intercalate parts ++ " e=0"
+
+def pDecc (gs : List (List (List Nat))) (obs : List String) : String := Id.run do
+  let arrivals := gs.flatten.flatten
+  match obs with
+  | [stats, e] =>
+    if e != "e=0" then return "violated:publish_error"
+    match parseKeyStats stats with
+    | none => return "bad-op"
+    | some st =>
+      if st.length != nKeys gs then return "violated:length"
+      for (v, k) in st.zipIdx do
+        let n := countOf arrivals k
+        match v with
+        | [forwarded, droppedAcked, _fwAcked, droppedNotAcked] =>
+          if n = 0 then
+            if forwarded + droppedAcked + droppedNotAcked != 0 then return "violated:phantom"
+          else
+            if forwarded != 1 then return "violated:concurrent_exactly_one"
+            if droppedNotAcked != 0 then return "violated:dropped_not_acked"
+            if droppedAcked + 1 != n then return "violated:drop_is_success"
+        | _ => return "bad-op"
+      return "ok"
+  | _ => return "bad-op"
+
+/-! ### hash / metakey / timeout / router / expire -/
+
+def mHash (algo : String) (l : Int) (p1 p2 : List UInt8) : String :=
+  if algo = "adler" then
+    hexEnc (be4 (hasherKey adler32 l p1)) ++ " " ++ hexEnc (be4 (hasherKey adler32 l p2))
+  else if hasherKey id l p1 = hasherKey id l p2 then "eq" else "ne"
+
+/-- statement: equal up to the read limit (never below 64) ⇒ equal keys; SHA-256: different within it ⇒ different keys -/
+def pHash (algo : String) (l : Int) (p1 p2 : List UInt8) (obs : List String) : String :=
+  let lim : Nat := if l < 64 then 64 else l.toNat
+  let samePrefix := p1.take lim == p2.take lim
+  match algo, obs with
+  | "adler", [k1, k2] => if samePrefix && k1 != k2 then "violated:hash_equal_prefix" else "ok"
+  | "sha", ["eq"] => if samePrefix then "ok" else "violated:sha_distinct"
+  | "sha", ["ne"] => if samePrefix then "violated:hash_equal_prefix" else "ok"
+  | _, _ => "violated:hasher_failed"
+
+def mMetaKey (field : String) (md : List (String × String)) : String :=
+  match metaKey field md with
+  | .key v => "key:" ++ v
+  | .err => "err"
+
+def mTimeout (via : String) (cfg lo hi : Int) (cv : String) : String :=
+  let eff : Int := if via = "direct" then cfg else if cfg < 5000000 then 5000000 else cfg
+  if lo ≤ eff && eff ≤ hi && cv = "1" then "ok" else s!"timeout-mismatch:expected {eff}"
+
+/-! ### hist: stamped concurrent history against the timed model -/
+
+structure TEv where
+  key : Nat
+  c : Nat
+  r : Nat
+  res : Char
+  deriving Inhabited
+
+def parseTEv (s : String) : Option TEv :=
+  match s.splitOn ":" with
+  | [k, c, r, x] => do
+    let k ← k.toNat?
+    let c ← c.toNat?
+    let r ← r.toNat?
+    if c > r then none
+    match x.toList with
+    | [ch] => pure ⟨k, c, r, ch⟩
+    | _ => none
+  | _ => none
+
+/-- the window statement on conservative stamps: two accepted arrivals of one key are more than a window apart
+    (whatever instants inside the two calls the code read its clock), and a duplicate verdict needs an accepted arrival
+    of that key that can have come first -/
+def pHist (w : Nat) (evs : List TEv) : String := Id.run do
+  if evs.any (fun e => e.res != 'a' && e.res != 'd') then return "violated:error_or_panic"
+  let arr := evs.toArray
+  for i in [0:arr.size] do
+    let a := arr[i]!
+    if a.res == 'a' then
+      for j in [i+1:arr.size] do
+        let b := arr[j]!
+        if b.res == 'a' && b.key == a.key then
+          if !(a.c + w < b.r || b.c + w < a.r) then return "violated:one_per_window"
+  for d in evs do
+    if d.res == 'd' then
+      if !(evs.any fun a => a.res == 'a' && a.key == d.key && a.c ≤ d.r) then return "violated:duplicate_without_accepted"
+  return "ok"
+
+/-- remove the first element satisfying `p` -/
+def removeFirst (p : TEv → Bool) : List TEv → List TEv
+  | [] => []
+  | x :: xs => if p x then xs else x :: removeFirst p xs
+
+/-- search for a linearisation of the events of one key: an order respecting real time (x before y if x returned before
+    y was called), clock readings inside the calls and non-decreasing along the order, a clean-up inserted where the key
+    is accepted again.  `T` = earliest possible clock reading, `cur` = expiry of the present entry.
+    Everything is scheduled as early as possible (smaller readings and expiries never hurt).  An accepted arrival that can
+    be placed now without making another pending call impossible is tried first (placing it later only raises its
+    expiry); the alternatives – another accepted arrival, or the pending duplicate with the earliest call – are
+    explored on failure.  `fuel` bounds the number of nodes; the result is `(witness?, fuel left)`. -/
+partial def searchKey (w : Nat) (k : String) (rem : List TEv) (T : Nat) (cur : Option Nat)
+    (ops : List (Op String)) (want : List Bool) (fuel : Nat) : Option (List (Op String) × List Bool) × Nat :=
+  match rem with
+  | [] => (some (ops.reverse, want.reverse), fuel)
+  | e0 :: _ =>
+    if fuel = 0 then (none, 0) else
+    let fuel := fuel - 1
+    let floorAcc := match cur with | some E => max T (E + 1) | none => T   -- earliest reading of any further accepted arrival
+    if rem.any (fun x => T > x.r || (x.res == 'a' && floorAcc > x.r)) then (none, fuel) else
+    let minRet := rem.foldl (fun m x => min m x.r) e0.r
+    let adm := fun (x : TEv) => x.c ≤ minRet
+    let timeOf := fun (a : TEv) => max floorAcc a.c
+    let accs := rem.filter (fun x => x.res == 'a' && adm x)
+    -- accepted arrivals whose placement now does not overtake the return of any other pending call
+    let safe := accs.filter fun a => rem.all fun x => x.r ≥ timeOf a || (x.c == a.c && x.r == a.r && x.res == 'a')
+    let placeAcc := fun (a : TEv) (fuel : Nat) =>
+      let t := timeOf a
+      let ops' := match cur with
+        | some E => Op.arrive k t :: Op.clean (E + 1) t :: ops
+        | none => Op.arrive k t :: ops
+      searchKey w k (removeFirst (fun x => x.c == a.c && x.r == a.r && x.res == 'a') rem) t (some (t + w)) ops' (false :: want) fuel
+    let rec tryAccs (l : List TEv) (fuel : Nat) : Option (List (Op String) × List Bool) × Nat :=
+      match l with
+      | [] => (none, fuel)
+      | a :: rest =>
+        match placeAcc a fuel with
+        | (some wit, f) => (some wit, f)
+        | (none, f) => if f = 0 then (none, 0) else tryAccs rest f
+    match tryAccs safe fuel with
+    | (some wit, f) => (some wit, f)
+    | (none, f) =>
+      if f = 0 then (none, 0) else
+      match cur, rem.find? (fun x => x.res == 'd' && adm x) with
+      | some _, some d =>
+        let t := max T d.c
+        searchKey w k (removeFirst (fun x => x.c == d.c && x.r == d.r && x.res == 'd') rem) t cur
+          (.arrive k t :: ops) (true :: want) f
+      | _, _ => (none, f)
+
+def verdictsOnly (rs : List Res) : List Bool :=
+  rs.filterMap fun | .verdict b => some b | .cleaned => none
+
+def searchFuel : Nat := 300000
+
+/-- `lin`: every key's events have a witness run of the proven model (well-timed, same verdicts, clock readings inside
+    the calls); `notlin:k<i>`: the search space of key i is exhausted without one.  If the node budget runs out the key is
+    passed (the budget is a guard against pathological histories, not a verdict; the window inequalities of the monitor
+    are checked independently on every history). -/
+def mHist (w : Nat) (evs : List TEv) : String := Id.run do
+  if evs.any (fun e => e.res != 'a' && e.res != 'd') then return "notlin:error"
+  let keys := (evs.map (·.key)).eraseDups
+  for k in keys do
+    let sub := evs.filter (·.key == k)
+    match searchKey w (toString k) sub 0 none [] [] searchFuel with
+    | (none, 0) => pure ()
+    | (none, _) => return s!"notlin:k{k}"
+    | (some (ops, want), _) =>
+      -- the witness is replayed on the proven model: well-timed, and the model gives exactly the observed verdicts
+      if !(decide (WellTimed ops)) then return s!"notlin:witness-not-well-timed:k{k}"
+      if verdictsOnly (run w [] ops).2 != want then return s!"notlin:witness-replay:k{k}"
+  return "lin"
+
+/-! ### dispatcher -/
+
+def handle (line : String) : String :=
+  match tok line with
+  | "M" :: "repo" :: keys => mRepo keys
+  | "P" :: "repo" :: rest =>
+    match rest.span (· ≠ "##") with
+    | (keys, ["##", obs]) => pRepo keys obs
+    | _ => "bad-op"
+  | "M" :: "mw" :: h :: steps =>
+    match parseHasher h, steps.mapM parseMwStep with
+    | some h, some steps => mMw h steps
+    | _, _ => "bad-op"
+  | "P" :: "mw" :: h :: rest =>
+    match rest.span (· ≠ "##") with
+    | (steps, "##" :: obs) =>
+      match parseHasher h, steps.mapM parseMwStep with
+      | some _, some steps => pMw steps (if obs = ["-"] then [] else obs)
+      | _, _ => "bad-op"
+    | _ => "bad-op"
+  | "M" :: "dec" :: h :: calls =>
+    match parseHasher h, calls.mapM parseDecCall with
+    | some h, some calls => mDec h calls
+    | _, _ => "bad-op"
+  | "P" :: "dec" :: h :: rest =>
+    match rest.span (· ≠ "##") with
+    | (calls, "##" :: obs) =>
+      match parseHasher h, calls.mapM parseDecCall with
+      | some _, some calls => pDec calls (if obs = ["-"] then [] else obs)
+      | _, _ => "bad-op"
+    | _ => "bad-op"
+  | ["M", "mwc", h, _, a] =>
+    match parseHasher h, parseAssign a false with
+    | some _, some gs => mMwc gs
+    | _, _ => "bad-op"
+  | ["P", "mwc", h, _, a, "##", obs] =>
+    match parseHasher h, parseAssign a false with
+    | some _, some gs => pMwc gs obs
+    | _, _ => "bad-op"
+  | ["M", "decc", h, _, a] =>
+    match parseHasher h, parseAssign a true with
+    | some _, some gs => mDecc gs
+    | _, _ => "bad-op"
+  | "P" :: "decc" :: h :: _ :: a :: "##" :: obs =>
+    match parseHasher h, parseAssign a true with
+    | some _, some gs => pDecc gs obs
+    | _, _ => "bad-op"
+  | ["M", "hash", algo, l, p1, p2] =>
+    match l.toInt?, hexDec p1, hexDec p2 with
+    | some l, some p1, some p2 => if algo = "adler" || algo = "sha" then mHash algo l p1 p2 else "bad-op"
+    | _, _, _ => "bad-op"
+  | "P" :: "hash" :: algo :: l :: p1 :: p2 :: "##" :: obs =>
+    match l.toInt?, hexDec p1, hexDec p2 with
+    | some l, some p1, some p2 => if algo = "adler" || algo = "sha" then pHash algo l p1 p2 obs else "bad-op"
+    | _, _, _ => "bad-op"
+  | ["M", "metakey", f, m] =>
+    match hexDec f, parseMeta m with
+    | some _, some md => mMetaKey f md
+    | _, _ => "bad-op"
+  | "P" :: "metakey" :: _ => "ok"        -- not part of the statement; model comparison only
+  | ["M", "timeout", via, cfg, lo, hi, cv] =>
+    match cfg.toInt?, lo.toInt?, hi.toInt? with
+    | some cfg, some lo, some hi => if ["mw", "dec", "direct"].contains via then mTimeout via cfg lo hi cv else "bad-op"
+    | _, _, _ => "bad-op"
+  | "P" :: "timeout" :: _ => "ok"        -- not part of the statement; model comparison only
+  | "M" :: "hist" :: w :: _ :: evs =>
+    match w.toNat?, evs.mapM parseTEv with
+    | some w, some evs => mHist w evs
+    | _, _ => "bad-op"
+  | "P" :: "hist" :: w :: _ :: rest =>
+    match w.toNat?, (rest.takeWhile (· ≠ "##")).mapM parseTEv with
+    | some w, some evs => pHist w evs
+    | _, _ => "bad-op"
+  | ["M", "expire", _, ms] => if ms.toNat?.isSome then "reaccepted" else "bad-op"
+  | ["P", "expire", _, _, "##", obs] =>
+    if obs = "reaccepted" then "ok"
+    else if obs = "first-not-accepted" then "violated:first_arrival_not_accepted"
+    else "violated:accepted_again_after_expiry"
+  | ["M", "router", n, nk] =>
+    match n.toNat?, nk.toNat? with
+    | some n, some nk => s!"handled={min n nk} acked={n}"
+    | _, _ => "bad-op"
+  | ["P", "router", n, nk, "##", h, a] =>
+    match n.toNat?, nk.toNat? with
+    | some n, some nk =>
+      if h != s!"handled={min n nk}" then "violated:concurrent_exactly_one"
+      else if a != s!"acked={n}" then "violated:drop_is_success"
+      else "ok"
+    | _, _ => "bad-op"
+  | _ => "bad-op"
+
+def main : IO Unit := driverMain handle
